@@ -704,17 +704,8 @@ func equalStrings(a, b []string) bool {
 var useActive atomic.Bool
 
 // A request without a route gets the configured status and page; no upstream is contacted.
-var (
-	fileDirOnce sync.Once
-	fileDirPath string
-)
-
-func fileDir() string {
-	fileDirOnce.Do(func() { fileDirPath, _ = os.MkdirTemp("", "c07file") })
-	return fileDirPath
-}
-
 func TestC07NoRoute(t *testing.T) {
+	pageDir := t.TempDir()
 	c := getChain()
 	var cur atomic.Value
 	cur.Store(0)
@@ -760,7 +751,7 @@ func TestC07NoRoute(t *testing.T) {
 			"<html>no route</html>\n", "\n\n <p>nothing here</p> \n", "<pre>\r\n  gone\r\n</pre>\r\n", "\tindented"}).Draw(t, "page")
 		if rapid.IntRange(0, 2).Draw(t, "page-from-a-file") == 0 && page != "" {
 			// the page as the file backend delivers it (registry.backend=file, registry.file.noroutehtmlpath)
-			dir := fileDir()
+			dir := pageDir
 			rp, hp := filepath.Join(dir, "routes.txt"), filepath.Join(dir, "noroute.html")
 			os.WriteFile(rp, []byte("route add svc only.example/only http://"+c.upHost()+"/\n"), 0o600)
 			os.WriteFile(hp, []byte(page), 0o600)
